@@ -253,11 +253,19 @@ theorem toJson_ne_lists_nil (s : Sheet) : toJson s ≠ .lists [] := by
       simp at hr
   · intro h; cases h
 
-theorem sheetsOfMembers_book : ∀ (w : Workbook), (∀ s ∈ w, readJson s.name (toJson s) = .ok s) →
-    sheetsOfMembers (jmsOfList (w.map (fun s => (s.name, contentJV (toJson s))))) = .ok w
+/-- sheet by sheet: whatever `JSONSheetReader` makes of each sheet's `table.dict` (`g s`), the loop
+over the members of the book delivers those, in order -/
+theorem sheetsOfMembers_book_gen (g : Sheet → Sheet) : ∀ (w : Workbook),
+    (∀ s ∈ w, readJsonSheet s.name (toJson s) = .ok (g s)) →
+    sheetsOfMembers (jmsOfList (w.map (fun s => (s.name, contentJV (toJson s))))) = .ok (w.map g)
   | [], _ => rfl
   | s :: w, h => by
-    have ih := sheetsOfMembers_book w (fun x hx => h x (by simp [hx]))
+    have ih := sheetsOfMembers_book_gen g w (fun x hx => h x (by simp [hx]))
     simp [jmsOfList, sheetsOfMembers, contentOf_contentJV _ (toJson_ne_lists_nil s), h s (by simp), ih]
+
+theorem sheetsOfMembers_book (w : Workbook) (h : ∀ s ∈ w, readJsonSheet s.name (toJson s) = .ok s) :
+    sheetsOfMembers (jmsOfList (w.map (fun s => (s.name, contentJV (toJson s))))) = .ok w := by
+  have := sheetsOfMembers_book_gen id w h
+  simpa using this
 
 end Rpft.Sheets
